@@ -144,8 +144,15 @@ class Ctx:
 
     def build_harness(self, cmd=None):
         """Build the harness runner. cmd = directory name under harness/cmd (default "vh")."""
+        explicit = cmd is not None
         cmd = cmd or getattr(self, "harness_cmd", "vh")
-        if self.vh:
+        if explicit:
+            # an additional harness command next to the check's main one (kept per command)
+            if not hasattr(self, "vhs"):
+                self.vhs = {}
+            if cmd in self.vhs:
+                return self.vhs[cmd]
+        elif self.vh:
             return self.vh
         env = dict(os.environ)
         env.update(GOENV)
@@ -161,15 +168,21 @@ class Ctx:
             shutil.copy(os.path.join(REPO, "go.sum"), os.path.join(hdir, "go.sum"))
         except Exception as e:
             raise Inconclusive("cannot copy go.sum: %s" % e)
-        out = os.path.join(self.work, "vh")
+        out = os.path.join(self.work, "vh-" + cmd if explicit else "vh")
         t = time.time()
-        p = subprocess.run(["go1.26", "build", "-tags", "verif", "-o", out, "./cmd/" + cmd], cwd=hdir, env=env,
+        tags = "verif"
+        if cmd.rsplit("-", 1)[-1] in ("gorilla", "nhooyr"):
+            tags += "," + cmd.rsplit("-", 1)[-1]       # the repository selects its WebSocket backend by build tag (wire/enable_*.go)
+        p = subprocess.run(["go1.26", "build", "-tags", tags, "-o", out, "./cmd/" + cmd], cwd=hdir, env=env,
                            stdout=subprocess.PIPE, stderr=subprocess.STDOUT, text=True)
         if p.returncode != 0:
             log(p.stdout[-4000:])
             raise Inconclusive("harness build failed (does /repo compile with -tags verif?)")
         log("[%s] harness built in %.1fs" % (self.pid, time.time() - t))
-        self.vh = out
+        if explicit:
+            self.vhs[cmd] = out
+        else:
+            self.vh = out
         return out
 
     def tlc(self, module, cfg=None, workers=16, timeout=900, simulate=None, depth=None, env=None, extra=None,
@@ -232,9 +245,9 @@ class Ctx:
         return r
 
     # ------------------------------------------------------------- scenarios
-    def run_scenarios(self, scs, name="sc", par=16, isolate=False, timeout=1800, child_timeout=60):
-        vh = self.build_harness()
-        self.last_run = {"harness_cmd": getattr(self, "harness_cmd", "vh"), "isolate": bool(isolate)}
+    def run_scenarios(self, scs, name="sc", par=16, isolate=False, timeout=1800, child_timeout=60, cmd=None):
+        vh = self.build_harness(cmd)
+        self.last_run = {"harness_cmd": cmd or getattr(self, "harness_cmd", "vh"), "isolate": bool(isolate)}
         inp = os.path.join(self.work, name + ".json")
         outp = os.path.join(self.work, name + ".ndjson")
         with open(inp, "w") as f:
@@ -254,7 +267,7 @@ class Ctx:
             if not isolate:
                 log("[%s] re-running %s isolated (one process per scenario)" % (self.pid, name))
                 out = self.run_scenarios(scs, name=name + "-iso", par=par, isolate=True, timeout=timeout,
-                                         child_timeout=child_timeout)
+                                         child_timeout=child_timeout, cmd=cmd)
                 # the crash is real-code behaviour: if no isolated child dies the same way it is not attributable to a scenario and
                 # the run must not be reported as "held" (finish() turns it into exit 2 unless a violation explains it)
                 died = False
